@@ -697,3 +697,102 @@ Definition run_pm_session (w : nat) (a : list (list (list (list Z)))) (N R C M :
            (maps : list (list (string * mapping))) (sel : selector) (center width : Q)
            (ops : list op) : val :=
   VL (session w R C M (N * M) (pm_bytes (get_nested a) N R C M w) maps sel center width None ops).
+
+(* ======================================================================== *)
+(* extension 4: sub-ranges of the volume read and maps with several channels  *)
+(* (Image.get_volume arguments slice_start / slice_end, row_start / row_end,   *)
+(*  column_start / column_end, as_indices)                                    *)
+(* ======================================================================== *)
+Definition zrange2 (a b : Z) : list Z := map (fun k => a + k) (zrange (b - a)).
+
+(* one-based numbers -> zero-based indices (0 is refused, negatives kept) *)
+Definition num0 (ai : bool) (v : option Z) : res (option Z) :=
+  match v with
+  | None => Ok None
+  | Some x => if ai then Ok (Some x)
+              else if x =? 0 then Err "ValueError"
+              else Ok (Some (if 0 <? x then x - 1 else x))
+  end.
+
+(* image._standardize_slice_indices (n = number of volume positions) *)
+Definition std_slice (ss se : option Z) (n : Z) (ai : bool) : res (Z * Z) :=
+  bind (num0 ai ss) (fun ss' =>
+  bind (num0 ai se) (fun se' =>
+  let s0 := match ss' with None => 0 | Some x => x end in
+  let s := if s0 <? 0 then n + s0 else s0 in
+  bind (match se' with
+        | None => Ok n
+        | Some x => if n <? x then Err "IndexError"
+                    else if x <? 0 then (if x <? - n then Err "IndexError" else Ok (n + x))
+                    else Ok x
+        end) (fun e =>
+  if e - s <? 1 then Err "ValueError" else Ok (s, e)))).
+
+(* image._standardize_row_column_indices for one axis of n rows (columns), outputs_as_indices=True.
+   Rows and columns are checked interleaved in the code; every refusal is a ValueError, so the
+   order between the two axes cannot be observed *)
+Definition std_axis (st en : option Z) (n : Z) (ai : bool) : res (Z * Z) :=
+  let up := fun (o : option Z) (d : Z) =>
+    match o with None => d | Some v => if ai && (0 <=? v) then v + 1 else v end in
+  let st1 := up st 1 in
+  let en1 := up en (n + 1) in
+  if st1 =? 0 then Err "ValueError"
+  else if en1 =? 0 then Err "ValueError"
+  else
+    bind (if n <? st1 then Err "ValueError"
+          else if st1 <? 0 then (if n + st1 + 1 <? 1 then Err "ValueError" else Ok (n + st1 + 1))
+          else Ok st1) (fun s =>
+    bind (if n + 1 <? en1 then Err "ValueError"
+          else if en1 <? 0 then (if n + en1 + 1 <? 1 then Err "ValueError" else Ok (n + en1 + 1))
+          else Ok en1) (fun e =>
+    Ok (s - 1, e - 1))).
+
+(* array[:, r0:r1, c0:c1] of one slice stored row-major with C columns *)
+Definition crop_frame {A} (d : A) (C r0 r1 c0 c1 : Z) (fr : list A) : list A :=
+  flat_map (fun r => map (fun c => nth (Z.to_nat (r * C + c)) fr d) (zrange2 c0 c1)) (zrange2 r0 r1).
+
+Record volargs := {
+  v_ss : option Z; v_se : option Z;      (* slice_start, slice_end *)
+  v_rs : option Z; v_re : option Z;      (* row_start, row_end *)
+  v_cs : option Z; v_ce : option Z;      (* column_start, column_end *)
+  v_ai : bool                            (* as_indices *)
+}.
+
+(* Image.get_volume (not tiled) of a map with M channels: every plane position occurs M times in
+   the frame table; order of the steps as in the code: rows/columns standardised, frames must be
+   identified by position, slices standardised (a start below -n passes the standardiser and the
+   placement of the frames into the output array then fails with an IndexError), the requested
+   slices are read and transformed (tr), the array is cropped (an empty crop is refused when the
+   geometry is indexed).  Result: (rows, columns, [(position of the uncropped slice, values)]) *)
+Definition pm_volume_sub {A} (d : A) (tr : list Z -> res (list A)) (R C M : Z)
+           (pos : list (list Z)) (frames : list (list Z)) (a : volargs)
+  : res (Z * Z * list (list Z * list A)) :=
+  bind (std_axis (v_rs a) (v_re a) R (v_ai a)) (fun rr =>
+  bind (std_axis (v_cs a) (v_ce a) C (v_ai a)) (fun cc =>
+  bind (pm_volume (flat_map (fun p => repeat p (Z.to_nat M)) pos) frames) (fun sl =>
+  bind (std_slice (v_ss a) (v_se a) (Z.of_nat (length sl)) (v_ai a)) (fun se =>
+  if fst se <? 0 then Err "IndexError"
+  else
+    bind (res_all (map (fun pf => bind (tr (snd pf)) (fun v => Ok (fst pf, v)))
+                       (firstn (Z.to_nat (snd se - fst se)) (skipn (Z.to_nat (fst se)) sl))))
+         (fun out =>
+    if (snd rr <=? fst rr) || (snd cc <=? fst cc) then Err "IndexError"
+    else Ok (snd rr - fst rr, snd cc - fst cc,
+             map (fun pf => (fst pf, crop_frame d C (fst rr) (snd rr) (fst cc) (snd cc) (snd pf)))
+                 out)))))).
+
+(* boundary: [[rows; columns]; [position; values] per slice] *)
+Definition run_pm_volume_sub (w : nat) (a : list (list (list (list Z)))) (N R C M : Z)
+           (pos : list (list Z)) (rw : option mapping) (args : volargs) : val :=
+  let bytes := pm_bytes (get_nested a) N R C M w in
+  let frames := map (read_frame w R C bytes) (zrange (N * M)) in
+  match rw with
+  | None =>
+      vres (fun t => match t with (nr, nc, sl) =>
+              VL [vz_list [nr; nc]; VL (map (fun pf => VL [vz_list (fst pf); vz_list (snd pf)]) sl)] end)
+           (pm_volume_sub 0 (fun ws => Ok ws) R C M pos frames args)
+  | Some m =>
+      vres (fun t => match t with (nr, nc, sl) =>
+              VL [vz_list [nr; nc]; VL (map (fun pf => VL [vz_list (fst pf); vq_list (snd pf)]) sl)] end)
+           (pm_volume_sub 0%Q (apply_mapping m) R C M pos frames args)
+  end.
